@@ -14,6 +14,7 @@ import (
 	"verif/harness/ref"
 	"verif/harness/run"
 	"verif/harness/val"
+	"verif/harness/zoo"
 )
 
 // C10: extended events mean exactly their expansion into basic events.
@@ -216,6 +217,24 @@ func c10Unfolder(c *run.C) {
 		// arbitrary context into interface{}
 		streams = c10Streams(r, c.Idx)
 		t = gen.TIface
+		sel := (c.Idx / (4 * len(kinds))) % 4
+		for _, e := range streams[0] {
+			if e.K.IsExtObject() && e.X != nil && reflect.ValueOf(e.X).Len() > 1 {
+				sel = 0 // typed map events iterate in random order: a log of callbacks cannot be compared
+			}
+		}
+		switch sel {
+		case 1:
+			// ... or into a target with a user-defined unfold state, which
+			// writes down every callback it gets (differential use only)
+			t = reflect.TypeOf(zoo.Recorder{})
+		case 2:
+			t = reflect.TypeOf(struct {
+				X zoo.Recorder
+				Y string
+			}{})
+			streams = []val.Stream{append(append(val.Stream{{K: val.EObjStart, N: -1}, {K: val.EKeyRef, S: "x"}}, streams[0]...), val.Event{K: val.EKeyRef, S: "y"}, val.Event{K: val.EStringRef, S: "after"}, val.Event{K: val.EObjEnd})}
+		}
 	} else {
 		ev := gen.ExtEvent(r, k, []int{0, 1, -1, 30}[(c.Idx/(4*len(kinds)))%4], true, true)
 		et := val.ElemType(k)
@@ -257,6 +276,7 @@ func c10Unfolder(c *run.C) {
 		cache = gen.Pick(r, []int{0, 1, 2, 8, 64})
 	}
 	c.Begin(map[string]interface{}{"type": t.String(), "streams": streams, "key_cache": cache})
+	byValue := false
 	runOne := func(expand bool) (reflect.Value, error, []int, bool) {
 		tgt := reflect.New(t)
 		u, err := gotype.NewUnfolder(nil)
@@ -274,6 +294,9 @@ func c10Unfolder(c *run.C) {
 				}
 				if expand {
 					s = s.Expand(true)
+				}
+				if byValue {
+					s = normRefs(s) // every by-reference string and key as its by-value event
 				}
 				if uerr = mon.Replay(s, u, mon.ReplayOpts{ScribbleRefs: true}); uerr != nil {
 					return
@@ -302,6 +325,20 @@ func c10Unfolder(c *run.C) {
 		c.Violationf("mismatch", "unfolder:value-differs", "target built from the extended events differs from the target built from their expansion: %s\ntype=%s\nstream=%s\nextended=%s\nexpanded=%s", d, t, streams[0], valueString(ta.Elem()), valueString(tb.Elem()))
 		return
 	}
+	// the third way: the same calls with strings and keys passed by value
+	byValue = true
+	tc, ec, _, ok := runOne(false)
+	if !ok {
+		return
+	}
+	if ec != nil {
+		c.Violationf("mismatch", "unfolder:byvalue-error", "unfolder accepted the stream with by-reference strings/keys but returned %v when they are passed by value\ntype=%s\nstream=%s", ec, t, streams[0])
+		return
+	}
+	if d := eqGoPlain(tc.Elem(), ta.Elem(), "direct", "$"); d != "" {
+		c.Violationf("mismatch", "unfolder:byref-differs", "target built with by-reference strings/keys differs from the target built with the same strings/keys by value: %s\ntype=%s\nstream=%s\nby reference=%s\nby value    =%s", d, t, streams[0], valueString(ta.Elem()), valueString(tc.Elem()))
+		return
+	}
 	if hook.Enabled && !reflect.DeepEqual(da, db) {
 		c.Violationf("state", "unfolder:depths-differ", "unfolder is left in another state by the extended calls (%v) than by their expansion (%v)\ntype=%s\nstream=%s", da, db, t, streams[0])
 		return
@@ -312,6 +349,9 @@ func c10Unfolder(c *run.C) {
 	}
 	if mode != 0 {
 		c.Observe("unfolder_typed_pairs", 1)
+	}
+	if t == reflect.TypeOf(zoo.Recorder{}) || (t.Kind() == reflect.Struct && t.NumField() == 2 && t.Field(0).Type == reflect.TypeOf(zoo.Recorder{})) {
+		c.Observe("unfolder_pairs_into_user_unfold_state", 1)
 	}
 	c.Nontrivial(gen.Mix(101, gen.HashString(t.String()), gen.HashString(streams[0].String())))
 }
